@@ -2,6 +2,7 @@ package keyvalue
 
 import (
 	"context"
+	"errors"
 	"io"
 	"path"
 	"time"
@@ -276,6 +277,9 @@ func (f *file) writeBlobAt(op string, p blob.Blob, off int64) (n int, err error)
 	size := f.currentSize()
 	if f.flag&hackpadfs.FlagAppend != 0 {
 		off = size
+	}
+	if off < 0 {
+		return 0, &hackpadfs.PathError{Op: op, Path: f.path, Err: errors.New("negative offset")}
 	}
 
 	endIndex := off + int64(p.Len())
